@@ -24,7 +24,7 @@ def run(ctx):
     ctx.rule("C18.R2", "to_line and from_line agree on the record layout (count, big-endian 16-bit address, type, data, checksum)", floor=6)
     ctx.rule("C18.R3", "checksum: writer appends the two's complement of the byte sum, reader requires the sum to be 0 mod 256", floor=3)
     ctx.rule("C18.R4", "extended linear address: upper 16 bits written >>16 and read <<16; the running upper address advances at each 64 KiB crossing before the data record", floor=8)
-    ctx.rule("C18.R5", "regions: sorted before merging, adjacent merged (scan restarted after each merge), overlap raises; add_region always registers and checks; records after EOF raise", floor=8)
+    ctx.rule("C18.R5", "regions: sorted before merging, adjacent merged (scan restarted after each merge), overlap raises; add_region always registers and checks; records after EOF raise", floor=10)
     project = ctx.project
     mod = project.module(F)
     consts = {}
@@ -197,6 +197,22 @@ def run(ctx):
                (not snapshot) or leaves, construct="restart-after-merge", node=mg[0])
         wl = [a for a in _anc18(mg[0]) if isinstance(a, ast.While)]
         ctx.ob("C18.R5", F + ":HexFile.check", "merging repeats until a full scan finds nothing to merge", bool(wl) and any(isinstance(n, ast.Assign) and norm(n.targets[0]) in norm(wl[0].test) and norm(n.value) == "True" for n in ast.walk(mg[0])), construct="merge-fixpoint")
+    # load(): every data record is placed at its full address, through add_region
+    lb = {}
+    for n_ in walk_no_nested(load):
+        if isinstance(n_, ast.If) and isinstance(n_.test, ast.Compare) and len(n_.test.ops) == 1 and isinstance(n_.test.ops[0], ast.Eq) and norm(n_.test.left) == "line.typ":
+            lb.setdefault(norm(n_.test.comparators[0]), (n_, n_.body))
+    if "DATA" in lb:
+        body = lb["DATA"][1]
+        calls_ = [c for b in body for c in ast.walk(b) if isinstance(c, ast.Call)]
+        adds_ = [c for c in calls_ if last_name(c) == "add_region"]
+        other = [x for b in body for x in ast.walk(b) if isinstance(x, (ast.If, ast.For, ast.While)) or (isinstance(x, ast.Call) and last_name(x) in ("add_data", "extend", "append"))]
+        extv = [n for n in ast.walk(load) if isinstance(n, ast.Assign) and "<< 16" in norm(n.value) and isinstance(n.targets[0], ast.Name)]
+        ev = extv[0].targets[0].id if extv else "ext"
+        ok = len(adds_) == 1 and not other and len(adds_[0].args) == 2 and sym.affine(adds_[0].args[0], {}) == sym.atom("line.address") + sym.atom(ev) and norm(adds_[0].args[1]) == "line.data"
+        ctx.ob("C18.R5", F + ":HexFile.load", "every data record is added as a region at (extended linear address + 16-bit record address): no shortcut that continues the previous record by its 16-bit offset", ok,
+               construct="load-data-full-address", node=(other[0] if other else (adds_[0] if adds_ else load)))
+        ctx.ob("C18.R5", F + ":HexFile.load", "the extended linear address record sets the upper 16 bits used for all following data records", bool(extv) and "EXTLINADR" in lb and any(x is extv[0] for b in lb["EXTLINADR"][1] for x in ast.walk(b)), construct="load-ext")
     ar = ctx.fn(F, "HexFile.add_region")
     from ..cfg import EXIT
     cfg_ar = CFG(ar)
